@@ -190,7 +190,7 @@ def to_data(df: pd.DataFrame, kind: str):
     return Data.from_dataframe(df)
 
 
-def make_model(kind: str, n_features: int, *, source_dimension: Optional[int] = None, name: Optional[str] = None):
+def make_model(kind: str, n_features: int, *, source_dimension: Optional[int] = None, name: Optional[str] = None, **extra):
     """Instantiate (not initialise) a model of the given kind."""
     from leaspy.models import model_factory
     from leaspy.models.obs_models import observation_model_factory
@@ -228,6 +228,7 @@ def make_model(kind: str, n_features: int, *, source_dimension: Optional[int] = 
             kw.update(nb_events=info["nb_events"])
     elif fam == "mixture_logistic":
         kw.update(obs_models="gaussian-diagonal", dimension=n_features, source_dimension=sd, n_clusters=2)
+    kw.update(extra)   # e.g. initialization_method="random"
     if name:
         return model_factory(fam, name, **kw)
     return model_factory(fam, **kw)
